@@ -45,7 +45,13 @@ impl<T: 'static> Resource<T> {
 
     /// Attach handlers to always call the refetch function to get the latest value.
     fn always_refetch(self) -> Self {
+        // The number of fetches started so far, to tell whether a fetch is still the latest one.
+        let started = std::rc::Rc::new(std::cell::Cell::new(0u32));
         create_effect(move || {
+            let this_fetch = started.get().wrapping_add(1);
+            started.set(this_fetch);
+            let started = started.clone();
+
             self.is_loading.set(true);
             // Take all the scopes and create a new guard.
             for scope in self.scopes.take() {
@@ -57,6 +63,12 @@ impl<T: 'static> Resource<T> {
 
             sycamore_futures::create_suspense_task(async move {
                 let value = fut.await;
+                // The fetch may have been superseded during its very last poll (e.g. the fetch
+                // itself wrote to one of its dependencies before returning). It is then too late
+                // for the abort to take effect, but the result must not be delivered.
+                if started.get() != this_fetch {
+                    return;
+                }
                 batch(move || {
                     self.value.set(Some(value));
                     self.is_loading.set(false);
